@@ -187,8 +187,12 @@ def gen_args(tape):
     return tuple(args), data
 
 
-def run_workload(tape, *, faults=True, fmt_args=False, oversize=True, cancels=True):
-    """returns (violations, stats, digest, sim_time, schedule, sample, nontrivial)"""
+def run_workload(tape, *, faults=True, fmt_args=False, oversize=True, cancels=True,
+                 fast_master=False):
+    """returns (violations, stats, digest, sim_time, schedule, sample, nontrivial)
+
+    fast_master: the master is a FastEtherCat, i.e. every returning frame passes the real
+    EtherXDP dispatcher (generated byte code in the kernel stub) on its way to the socket"""
     from ebpfcat.ethercat import ECCmd, EtherCat, EtherCatError
 
     wf = WireFaults()
@@ -202,7 +206,7 @@ def run_workload(tape, *, faults=True, fmt_args=False, oversize=True, cancels=Tr
     else:
         skip_rate = 0
         wf.delay_buckets = (50e-6, 20e-6, 200e-6)
-    env = Env(tape, faults=wf)
+    env = Env(tape, faults=wf, with_kernel=fast_master)
     world = env.world
     bus = env.bus
     stations = [1001, 1002, 1003]
@@ -252,6 +256,18 @@ def run_workload(tape, *, faults=True, fmt_args=False, oversize=True, cancels=Tr
     def rx_monitor(stage, no, frame, n=None, *rest):
         if stage == "deliver" and no not in delivered and n:
             delivered[no] = frame
+        if stage == "xdp" and rest:
+            # fast master without sync groups: every frame of this workload has to be
+            # handed to user space by the dispatcher; one that goes back onto the bus is
+            # executed a second time by the terminals
+            action = rest[0]
+            if action == 3:
+                world.count("xdp/request-frame-retransmitted")
+                viol("sent-more-than-once", f"frame {no}: the dispatcher sent a request frame "
+                     f"back onto the bus (its datagrams are executed twice)")
+            elif action != 2:
+                viol("never-completed", f"frame {no}: the dispatcher ended with action "
+                     f"{action}: the frame never reaches the master")
 
     bus.monitors.append(tx_monitor)
     bus.rx_monitors.append(rx_monitor)
@@ -314,16 +330,28 @@ def run_workload(tape, *, faults=True, fmt_args=False, oversize=True, cancels=Tr
         return r
 
     HARNESS_TIMEOUT = 0.5
-    ec = EtherCat("sim0")
+    if fast_master:
+        from ebpfcat.ebpfcat import FastEtherCat
+        ec = FastEtherCat("sim0")
+    else:
+        ec = EtherCat("sim0")
 
     # the packet index is a 30-bit random number; bias the draw towards indices that are
-    # still in flight so that the collision retry of roundtrip_packet is exercised
+    # still in flight so that the collision retry of roundtrip_packet is exercised, and
+    # (behind the dispatcher) towards indices that look like a sync group's slot number in
+    # their low 6, 8 or 16 bits
     def collide(a, b):
         if (a, b) == (2000, 1000000000) and ec.wait_futures and \
                 tape.chance("collide/packet-index", 15):
             world.count("probe/packet-index-collision-offered")
             keys = sorted(ec.wait_futures)
             return keys[tape.draw("collide/which", len(keys))]
+        if (a, b) == (2000, 1000000000) and fast_master and \
+                tape.chance("collide/index-looks-like-a-slot", 10):
+            world.count("probe/packet-index-with-slot-like-low-bits")
+            shift = tape.pick("collide/slot-shift", [16, 8, 6, 24])
+            v = ((1 + tape.draw("collide/slot-hi", 1000)) << shift) | tape.draw("collide/slot-lo", 64)
+            return v if a <= v <= b else None
         return None
     env.collide["rand/ethercat"] = collide
     client_tasks = []
